@@ -419,6 +419,44 @@ class AbsInt:
     def _v_Constant(self, e, env, m):
         return e.value
 
+    def _v_Lambda(self, e, env, m):
+        return ('lambda', e, dict(env), m)
+
+    def call_lambda(self, lam, args):
+        _, node, env, m = lam
+        env2 = dict(env)
+        params = [a.arg for a in node.args.args]
+        if len(params) != len(args):
+            raise AbsRaise('TypeError', node, implicit=True)
+        env2.update(zip(params, args))
+        return self.ev(node.body, env2, m)
+
+    def sort_items(self, items, kwargs, node):
+        key = kwargs.get('key')
+        rev = kwargs.get('reverse', False)
+        if not isinstance(rev, bool):
+            raise Unsupported('sort with a symbolic reverse flag')
+        keys = []
+        for it in items:
+            if key is None:
+                k = it
+            elif isinstance(key, tuple) and key and key[0] == 'lambda':
+                k = self.call_lambda(key, [it])
+            else:
+                k = self.apply(key, [it], {}, node)
+            if isinstance(k, AV) and k.is_const:
+                k = k.const
+            if isinstance(k, AList) and not k.has_var() and all(_is_concrete(x) for x in k.items):
+                k = tuple(k.items)
+            if not _is_concrete(k):
+                raise Unsupported(f'sort key {k!r} is not a constant (line {getattr(node, "lineno", "?")})')
+            keys.append(k)
+        try:
+            order = sorted(range(len(items)), key=lambda i: keys[i], reverse=rev)
+        except TypeError:
+            raise AbsRaise('TypeError', node, implicit=True)
+        return [items[i] for i in order]
+
     def _v_Yield(self, e, env, m):
         if not self._yields:
             raise Unsupported('yield outside an abstractly evaluated generator')
@@ -1106,6 +1144,11 @@ class AbsInt:
             return Opaque('set of symbolic')
         if f in (int,) and args and isinstance(args[0], AV):
             return args[0]
+        if isinstance(f, tuple) and f and f[0] == 'lambda':
+            return self.call_lambda(f, list(args))
+        if f is sorted and args and isinstance(args[0], (AList, list, tuple)) and not _is_concrete(args[0]):
+            src = args[0].items if isinstance(args[0], AList) else list(args[0])
+            return AList(self.sort_items(list(src), kwargs, node), 'list')
         if f is bool and len(args) == 1 and not _is_concrete(args[0]):
             return self.truth(args[0], node)
         if f is ord and len(args) == 1 and isinstance(args[0], AList):
@@ -1272,6 +1315,17 @@ class AbsInt:
             if name == 'reverse' and not base.has_var():
                 base.items.reverse()
                 return None
+            if name == 'sort' and not base.has_var() and not args:
+                base.items[:] = self.sort_items(list(base.items), kwargs, node)
+                return None
+            if name == 'insert' and len(args) == 2 and isinstance(args[0], int) and not base.has_var():
+                base.items.insert(args[0], args[1])
+                return None
+            if name in ('pop',) and not base.has_var():
+                try:
+                    return base.items.pop(*[a for a in args if isinstance(a, int)])
+                except IndexError:
+                    raise AbsRaise('IndexError', node, implicit=True)
             return Opaque(f'list.{name}')
         if isinstance(base, (list,)) and name in ('append', 'extend'):
             if name == 'append':
